@@ -53,7 +53,12 @@ def handleHyp (ins outs : List J) : Verdict :=
       if what == "pmf" then
         verdictOf tag [("hyper-pmf", closeV go (.fin (hypPMF N K D ki)) atol 0, s!"go={go.str} model={ratStr (hypPMF N K D ki)}")]
       else if what == "cdf" then
-        verdictOf tag [("hyper-cdf", closeV go (.fin (hypCDF N K D ki)) atol 0, s!"go={go.str} model={ratStr (hypCDF N K D ki)}")]
+        -- small populations: the mirror of the code's algorithm (Klotz's series, either side) is run too; it is proved
+        -- equal to the definitional CDF (`hypCDFalg_eq`), this is the runtime cross-check of that theorem
+        let algOk := N > 60 || K > N || D > N || !((hypLo N K D : Int) ≤ ki && ki < hypHi N K D) ||
+          (hypCDFalg N K D ki.toNat false == hypCDF N K D ki && hypCDFalg N K D ki.toNat true == hypCDF N K D ki)
+        verdictOf tag [("model-klotz-eq-cdf", algOk, "the series on either side vs the definitional sum"),
+          ("hyper-cdf", closeV go (.fin (hypCDF N K D ki)) atol 0, s!"go={go.str} model={ratStr (hypCDF N K D ki)}")]
       else .badOp "hyp: method"
     | _, _, _, _, _ => .badOp "hyp: parse"
   | _, _ => .badOp "hyp: arity"
